@@ -41,7 +41,10 @@ class ParamsProp(Prop):
             n = nq if tier == "quick" else nq * 20
             for i in range(n):
                 r = Rng(seed, self.id + ":" + fam, i)
-                layers = D.wide_mapping(r, tier) if fam == "wide_mapping" else D.FAMILIES[fam](r)
+                if fam in ("wide_mapping", "many_layers", "many_refs"):
+                    layers = getattr(D, fam)(r, tier)
+                else:
+                    layers = D.FAMILIES[fam](r)
                 yield {"op": "params", "layers": layers, "fam": fam}
 
     def judge(self, req, impl, reply):
